@@ -340,8 +340,16 @@ sd_apply(const mc_op *op)
             int   o  = op->a[0];
             mdim *d  = &S.dim[S.slot[o - SO_DIM0]];
             int32 nt = op->a[1] ? DFNT_FLOAT32 : DFNT_INT16;
-            uint8 v[16];
+            uint8 v[32];
             fillval(v, d->size * tsize(nt), S.nops, nt);
+            if (op->a[2]) {
+                /* a scale of the wrong length is refused, and the refusal leaves the dimension as it was */
+                if (SDsetdimscale(sd_id(o), d->size + 1, nt, v) != FAIL) {
+                    mc_violation("dimscale:wrong-count-accepted", "SDsetdimscale(%s) with %d values for a dimension of size %d succeeded", SONAME[o], d->size + 1, d->size);
+                    return 1;
+                }
+                break;
+            }
             if (SDsetdimscale(sd_id(o), d->size, nt, v) == FAIL) {
                 if (d->has_scale && d->scale_nt != nt)
                     mc_violation("dimscale:failed@number-type-of-existing-scale-changed", "SDsetdimscale(%s) with number type %d failed on a dimension whose scale has type %d", SONAME[o],
@@ -552,6 +560,8 @@ sd_enum(mc_op *out, int max)
             ADD(O_DIMSCALE, o, 0, 0, 0);
             if (thorough)
                 ADD(O_DIMSCALE, o, 1, 0, 0);
+            if (thorough || o == SO_DIM0)
+                ADD(O_DIMSCALE, o, 1, 1, 0); /* other number type, one value too many: must be refused without effect */
             if (thorough || o != SO_DIM1)
                 ADD(O_DIMSTRS, o, 0, 0, 0);
         }
@@ -585,6 +595,8 @@ sd_fmt(const mc_op *op, char *buf, size_t n)
         case O_SETATTR: snprintf(buf, n, "setattr(%s,name#%d,type %d,count %d)", SONAME[op->a[0]], op->a[1], (int)ATY[op->a[2]].nt, op->a[3]); break;
         case O_DIMNAME: snprintf(buf, n, "setdimname(%s,\"%s\")", SONAME[op->a[0]], op->a[1] == 0 ? "x" : op->a[1] == 1 ? "xy" : "z"); break;
         case O_DIMSCALE:
+            snprintf(buf, n, "setdimscale(%s,%s%s)", SONAME[op->a[0]], op->a[1] ? "float32" : "int16", op->a[2] ? ",one value too many" : "");
+            break;
         case O_DIMSTRS: snprintf(buf, n, "%s(%s)", opname[op->code], SONAME[op->a[0]]); break;
         case O_REOPEN: snprintf(buf, n, "reopen(%s)", op->a[0] ? "RDWR" : "READ"); break;
         case O_CREATE1:
